@@ -51,6 +51,8 @@ def main():
         hists[0] = [hh.split() if isinstance(hh, str) else hh]
     classes, exs, runs, ans, crashes, skipped = sc.run_in_chunks(ck, exe, model, lps, cfgs, hists=hists)
     sc.driver_verdicts(ck, lps, cfgs, runs, ck.hruns, ans, skipped, hists)
+    if not ck.args.replay:
+        sc.gate_check(ck, exe, model, lps, r, 60 if ck.tier == "quick" else 600)
     for (k, c, rc) in crashes:
         if isinstance(c, str):
             hs = hists[k][int(c[1:])]
